@@ -14,6 +14,7 @@ import (
 	"log/slog"
 	"math/rand"
 	"os"
+	"syscall"
 	"runtime"
 	"sync"
 	"time"
@@ -92,11 +93,19 @@ type chunkReader struct {
 	rng     *rand.Rand
 	max     int
 	eofWith bool // the last chunk is returned together with io.EOF (as io.Reader allows)
+	failure error // what ends the input instead of io.EOF (a device that goes away: "input/output error")
+}
+
+func (c *chunkReader) end() error {
+	if c.failure != nil {
+		return c.failure
+	}
+	return io.EOF
 }
 
 func (c *chunkReader) Read(p []byte) (int, error) {
 	if len(c.data) == 0 {
-		return 0, io.EOF
+		return 0, c.end()
 	}
 	n := 1 + c.rng.Intn(c.max)
 	if n > len(p) {
@@ -111,7 +120,7 @@ func (c *chunkReader) Read(p []byte) (int, error) {
 		runtime.Gosched()
 	}
 	if c.eofWith && len(c.data) == 0 {
-		return n, io.EOF
+		return n, c.end()
 	}
 	return n, nil
 }
@@ -235,7 +244,12 @@ func runPipeline(w *tr.Writer, in []byte, caps []int, mode string, hist [][]inte
 		// chunk sizes from one byte to more than any internal buffer; a third of the readers hand over their
 		// last chunk together with io.EOF
 		max := []int{1 + rng.Intn(64), 1 + rng.Intn(64), 4096, 1 << 16}[rng.Intn(4)]
-		reader = &chunkReader{append([]byte{}, in...), rand.New(rand.NewSource(rng.Int63())), max, rng.Intn(3) == 0}
+		cr := &chunkReader{append([]byte{}, in...), rand.New(rand.NewSource(rng.Int63())), max, rng.Intn(3) == 0, nil}
+		if rng.Intn(3) == 0 {
+			// the input does not end, it breaks: what was read before is still delivered to every consumer
+			cr.failure = &os.PathError{Op: "read", Path: "/dev/ttyUSB0", Err: syscall.EIO}
+		}
+		reader = cr
 	}
 	go func() {
 		ret <- tr.Recover(func() {
